@@ -6,6 +6,11 @@
 (* (RoundTrip) and each completed content stream is printed for lopdf's Content::decode.          *)
 EXTENDS MC_Content, IOUtils
 
+\* TLC orders record fields by first mention while parsing (root module first): the kind field `k` must come
+\* before the payload fields so that object values of different kinds are unequal without their payloads
+\* ever being compared (a function-valued `v` against a sequence-valued one is a TLC evaluation error).
+KindFirst_Gen_Content(o) == <<o.k, o.neg, o.v, o.w>>
+
 FileCases ==
     LET js == ndJsonDeserialize(IOEnv.CASES)
     IN {[ops |-> OpsOf(js[i].ops), idws |-> js[i].idws, free |-> js[i].free, ord |-> 0] : i \in 1..Len(js)}
